@@ -308,6 +308,15 @@ Definition c18_ok (c : scenario * obs) : bool :=
        (forallb (fun op => negb (needs_ack op) || mem (uop_uid op) (o_acked o)) (scenario_ops sc)
         && (o_retryq o =? 0)))).
 
+(* without an OnError callback the error classes cannot be observed: everything else of c18_ok *)
+Definition c18_ok_noerr (c : scenario * obs) : bool :=
+  let '(sc, o) := c in
+  negb (c_timeout (sc_cfg sc) && uids_wf sc) ||
+  (negb (o_hung o) && negb (o_stuck o)
+   && (negb (ends_stable sc) ||
+       (forallb (fun op => negb (needs_ack op) || mem (uop_uid op) (o_acked o)) (scenario_ops sc)
+        && (o_retryq o =? 0)))).
+
 (* ---------- re-subscriptions only name filters whose Subscribe was transmitted before ---------- *)
 (* The harness gives every Subscribe request u a marker filter "#u" as its first filter. A uid-0 SUBSCRIBE
    (re-subscription) naming "#u" before request u's own SUBSCRIBE was first written would transmit part
@@ -405,9 +414,13 @@ Definition lfailing (p : lscenario * obs -> bool) (cs : list (lscenario * obs)) 
   indices_where (fun c => negb (p c)) cs.
 
 (* C03 on a fine-grained schedule: every connection's PUBLISH packets in submission order, first
-   transmissions in submission order *)
+   transmissions in submission order, first deliveries in submission order *)
 Definition lc03_ok (c : lscenario * obs) : bool :=
-  let '(_, o) := c in
+  let '(sc, o) := c in
   negb (o_stuck o)
   && forallb (fun k => nondecreasing_from 0 (publishes_on k (o_wire o))) (conns_of (o_wire o))
-  && increasing_from 0 (first_occurrences [] (request_tx (o_wire o))).
+  && increasing_from 0 (first_occurrences [] (request_tx (o_wire o)))
+  (* closing faults only: first deliveries of QoS >= 1 messages in submission order *)
+  && (negb (forallb (fun e => match snd e with FSilentReq | FSilentAck => false | _ => true end) (ls_faults sc)) ||
+      increasing_from 0 (first_occurrences []
+        (filter (fun u => mem u (map uop_uid (filter is_q1plus_pub (label_submits (ls_labels sc))))) (o_delivered o)))).
